@@ -228,6 +228,13 @@ pub struct FileCfg {
     pub symlink: bool,
     pub bg_cleanup: bool,
     pub via_logger: bool,
+    /// how the builder is driven (same documented meaning, different call sequence):
+    /// 0 = explicit use_timestamp(..), log_to_file before rotate;
+    /// 1 = the FileSpec is left without an explicit timestamp decision where the documented default
+    ///     (start time without rotation, none with rotation) equals `start_ts`;
+    /// 2 = like 1, and Logger::rotate() is called before log_to_file()
+    #[serde(default)]
+    pub build_variant: u8,
 }
 impl FileCfg {
     pub fn line_ending(&self) -> &'static [u8] {
@@ -241,12 +248,16 @@ impl FileCfg {
         self.rot.as_ref().map(|r| &r.nam)
     }
     pub fn file_spec(&self, dir: &Path) -> FileSpec {
-        FileSpec::default()
+        let fs = FileSpec::default()
             .directory(dir)
             .basename(self.basename.clone().unwrap_or_default())
             .o_discriminant(self.discr.clone())
-            .o_suffix(self.suffix.clone())
-            .use_timestamp(self.start_ts)
+            .o_suffix(self.suffix.clone());
+        if self.build_variant > 0 && self.start_ts == self.rot.is_none() {
+            fs
+        } else {
+            fs.use_timestamp(self.start_ts)
+        }
     }
     /// [basename][_discriminant], the part of the name that does not depend on time
     pub fn static_prefix(&self) -> String {
@@ -272,6 +283,7 @@ impl FileCfg {
             symlink: false,
             bg_cleanup: false,
             via_logger: false,
+            build_variant: 0,
         }
     }
 }
@@ -327,7 +339,12 @@ impl Sess {
             None => flexi_logger::verif_hooks::set_error_channel(ErrorChannel::DevNull),
         }
         if cfg.via_logger && !cfg.utc {
-            let mut l = Logger::with(LogSpecification::trace())
+            let mut l = Logger::with(LogSpecification::trace());
+            let rotate_first = cfg.build_variant == 2;
+            if let (true, Some(r)) = (rotate_first, &cfg.rot) {
+                l = l.rotate(r.crit.to_flexi(), r.nam.to_flexi(), r.cln.to_flexi());
+            }
+            let mut l = l
                 .log_to_file(cfg.file_spec(dir))
                 .format_for_files(raw_format)
                 .write_mode(cfg.mode.to_flexi())
@@ -338,7 +355,7 @@ impl Sess {
                     Some(p) => ErrorChannel::File(p.to_path_buf()),
                     None => ErrorChannel::DevNull,
                 });
-            if let Some(r) = &cfg.rot {
+            if let (false, Some(r)) = (rotate_first, &cfg.rot) {
                 l = l.rotate(r.crit.to_flexi(), r.nam.to_flexi(), r.cln.to_flexi());
             }
             if cfg.crlf {
